@@ -123,3 +123,8 @@ def is_xml(data):
 
 def has_own(obj, name):
     return name in vars(obj)
+
+
+def pending_getters(q):
+    """consumers still registered on an asyncio.Queue (a Queue.get() that was started and neither finished nor cancelled)"""
+    return len([g for g in getattr(q, "_getters", ()) if not g.done()])
